@@ -19,12 +19,16 @@ PROPERTIES["C19"] = {
                   "up to the size bound. Bounded histories from New() cross-check the invariant. A model is replayed natively.",
     "level_note": "Bounds: n<=3/4 keys over a 4-letter alphabet, Map[string,int]; callbacks range over parametrised families. "
                   "sort.SliceStable, cmp.Equal are engine intrinsics (stable insertion sort, structural equality). "
-                  "JSON encode/decode operations are outside the claim (encoding/json token stream is not encodable).",
+                  "JSON: UnmarshalJSON is executed on symbolic documents (<=3 members, keys symbolic and possibly repeated or already present, "
+                  "non-object documents, wrong value types) and MarshalJSON through a token-level model of encoding/json's Decoder (Token/More/Decode) "
+                  "and Encoder/bytes.Buffer (segments) with their documented contract; derived maps (Filter/Map) must share no storage with the receiver.",
     "bounds": {
         "VerifC19Step": "one operation (set/remove/has+get/filter/map/sort x2/equal/from_map) from an arbitrary state with n<=3 (quick) / n<=4 (thorough) "
                         "pairwise distinct keys over the alphabet {a,b,c,d}, values symbolic in [0,100], argument key symbolic over the same alphabet",
         "VerifC19History": "histories of 3 (quick) / 4 (thorough) symbolic operations from New()",
-        "outside": "MarshalJSON/UnmarshalJSON (encoding/json token stream); At(i) outside 0<=i<Len; value type other than int",
+        "VerifC19JSONHistory": "histories of 2 (quick) / 3 (thorough) operations including JSON decode of a symbolic document and encode-decode round trips",
+        "VerifC19JSONDocs": "documents that are not an object of integers (null, number, string, array, string member, fractional member)",
+        "outside": "byte-level JSON syntax (escapes, whitespace, number text forms: the document is a tree); At(i) outside 0<=i<Len; value type other than int",
     },
     "assumptions": ["At(i) is only called with 0 <= i < Len() (documented precondition)",
                     "Map[string,int] instantiation; callbacks range over threshold/affine/key-equality families with symbolic parameters"],
@@ -148,8 +152,12 @@ PROPERTIES["C04"] = {
                   "bounds detect divergence. Inputs: symbolic IR through every language chain, every user transformation with symbolic parameters, the ordered map, "
                   "builder derivation and veneers (as they are added to the other checks).",
     "level_note": "Bounds as in the reused harnesses (C05/C06/C07/C15/C16/C17/C19). Byte-level parsing (JSON/YAML/CUE libraries), the CUE front end and text/template "
-                  "execution are outside the claim: cog code only sees decoded structs, which is what is made symbolic.",
-    "bounds": {"inputs": "same symbolic inputs as C05, C06, C07, C19 harnesses, panics judged instead of assertions", "recursion": "150 frames", "steps": "2e6 per path"},
+                  "execution are outside the claim: cog code only sees decoded structs, which is what is made symbolic. YAML mode: schema-transformation files whose IR types are "
+                  "ill-formed (kind without its definition / with another kind's definition / unknown kind, in retype_field, add_fields, add_object, retype_object) and "
+                  "builder-transformation files with malformed paths, empty assignment values, envelopes on non-struct targets, absent builders and options are loaded by the real "
+                  "loaders (yaml.v3 decoding is the engine's contract-level model), applied, and followed by the Go chain / builder derivation / nil-check generation.",
+    "bounds": {"inputs": "same symbolic inputs as C05, C06, C07, C19 harnesses, panics judged instead of assertions", "recursion": "150 frames", "steps": "2e6 per path",
+               "yaml mode": "one typed pass per file x 11 kinds x {well-formed, member missing, member of another kind}; one veneer rule per file over 10 paths x 4 value shapes x 5 methods"},
     "runs": lambda ctx: [
              Run("chains", ["./internal/zzverif/hchains"], CHAINS_HARNESS,
                  ["VerifC06Go", "VerifC06Java", "VerifC06PHP", "VerifC06Python", "VerifC06TypeScript", "VerifC06GoSpine", "VerifC06JavaSpine", "VerifC06PHPSpine", "VerifC06PythonSpine"],
@@ -271,9 +279,14 @@ PROPERTIES["C20"] = {
                   "As*(...) (T, error) dispatch method (list and member list read from go/types on this run: CompilerPass, BuilderRule, OptionRule, BuilderSelector, OptionSelector) "
                   "the value is built with no member or exactly one member set (populated to depth 3, leaves symbolic): no member => error; a declared member is never rejected as "
                   "`empty ...` and is dispatched to the action of its own type. Reference-string parsers: wrong number of dots => error, accepted strings round-trip.",
-    "level_note": "The claim is exact for the finite union structure. Outside the claim (not encodable): yaml.v3 KnownFields strictness at every depth and the equivalence of "
-                  "schemas/*.json (reflected by invopop/jsonschema) with the loaders.",
-    "bounds": {"unions": "none or exactly one member set, member payloads populated to depth 3 with symbolic leaves", "reference strings": "10 shapes incl. empty, leading/trailing/double dots, too many components"},
+    "level_note": "The claim is exact for the finite union structure. Strictness: the three loaders (CompilerLoader.Load, VeneersLoader.load, PipelineFromFile) are executed on the "
+                  "document that declares EVERY key path of the corresponding PUBLISHED schema (schemas/*.json, read from /repo on every run; recursive definitions unfolded twice), "
+                  "unmodified (no declared key may be rejected) and with one undeclared member (fresh key / other capitalisation / near miss of a declared key) injected at each "
+                  "mapping node whose keys the schema fixes (the loader must fail naming that key). gopkg.in/yaml.v3 decoding is an engine model of its documented contract "
+                  "(field matching by tag or lower-cased name, inline, KnownFields, custom UnmarshalYAML executed for real, Node.Decode starts a non-strict decoder). These runs "
+                  "enumerate paths (node x key variant) and use no solver variables. Outside: keys the loaders accept that the schemas do not declare; YAML surface syntax.",
+    "bounds": {"unions": "none or exactly one member set, member payloads populated to depth 3 with symbolic leaves", "reference strings": "10 shapes incl. empty, leading/trailing/double dots, too many components",
+               "strict decoding": "every mapping node of the full document of each published schema (672 + 1845 + 24 nodes today) x 3 injected-key variants; recursive definitions unfolded twice"},
     "prepare": _c20_prepare,
     "runs": _c20_runs,
 }
